@@ -39,7 +39,20 @@ type Res struct {
 	Attempt int
 }
 
+// handlerErr: the error a failing attempt returns. It may wrap a context error (a handler that was interrupted): the
+// configured ack policy and the reply text are the same whatever is inside.
+func (s callerSpec) handlerErr() error {
+	switch s.Wraps {
+	case 1:
+		return fmt.Errorf("%s: %w", s.Err, context.Canceled)
+	case 2:
+		return fmt.Errorf("%s: %w", s.Err, context.DeadlineExceeded)
+	}
+	return stderrors.New(s.Err)
+}
+
 type callerSpec struct {
+	Wraps int // 0 plain error, 1 wraps context.Canceled, 2 wraps context.DeadlineExceeded
 	Behav int // 0 drain, 1 read one then cancel late, 2 never read then cancel, 3 cancel before the reply, 4 timeout (handler held: no reply before it), 5 SendWithReply, 6 timeout while the replies sit unread
 	Fails int
 	Err   string
@@ -149,7 +162,8 @@ func rrCase[R any](t *rapid.T, withResult bool) {
 				}
 			}
 			specs[i] = callerSpec{Behav: b, Fails: rapid.IntRange(0, 2).Draw(t, "failingAttempts"),
-				Err: rapid.SampledFrom([]string{"boom", "", "é\nx", "other error"}).Draw(t, "errText")}
+				Err: rapid.SampledFrom([]string{"boom", "", "é\nx", "other error", "disk is 100% full %s"}).Draw(t, "errText"),
+				Wraps: rapid.SampledFrom([]int{0, 0, 1, 2}).Draw(t, "errWraps")}
 		}
 		w := &world{deliv: map[string][]*cmdDelivery{}, finished: map[string]int{}, attempts: map[string]int{}, published: map[string]int{}, gates: map[string]chan struct{}{}}
 		gc := gochannel.NewGoChannel(gochannel.Config{}, watermill.NopLogger{})
@@ -227,7 +241,7 @@ func rrCase[R any](t *rapid.T, withResult bool) {
 			}
 			s := specOf(c.ID)
 			if n <= s.Fails {
-				return n, stderrors.New(s.Err)
+				return n, s.handlerErr()
 			}
 			return n, nil
 		}
@@ -316,8 +330,8 @@ func rrCase[R any](t *rapid.T, withResult bool) {
 			wantErr := attempt <= s.Fails
 			if wantErr != (r.Error != nil) {
 				bad("reply content: %s attempt %d: error=%v, script says error=%v", id, attempt, r.Error, wantErr)
-			} else if wantErr && r.Error.Error() != s.Err {
-				bad("reply content: %s attempt %d: error text %q, handler returned %q", id, attempt, r.Error.Error(), s.Err)
+			} else if wantErr && r.Error.Error() != s.handlerErr().Error() {
+				bad("reply content: %s attempt %d: error text %q, handler returned %q", id, attempt, r.Error.Error(), s.handlerErr().Error())
 			}
 			return false
 		}
